@@ -58,6 +58,9 @@ type Task struct {
 
 type killSentinel struct{}
 
+// IsKill tells whether a recovered panic value is the scheduler unwinding a task.
+func IsKill(v interface{}) bool { _, ok := v.(killSentinel); return ok }
+
 // World owns time, tasks and the tape of one simulated run.
 type World struct {
 	Tape  *Tape
@@ -368,11 +371,11 @@ func (w *World) describeBlocked() string {
 		case t.wakeAt > w.now:
 			what = fmt.Sprintf("sleeping until %.3fs", t.wakeAt.Seconds())
 		case t.waitM != nil:
-			what = fmt.Sprintf("Lock(%p) owner=task%d", t.waitM, t.waitM.Owner-1)
+			what = fmt.Sprintf("Lock owner=task%d", t.waitM.Owner-1)
 		case t.waitR != nil:
-			what = fmt.Sprintf("RLock(%p) writer=task%d", t.waitR, t.waitR.Writer-1)
+			what = fmt.Sprintf("RLock writer=task%d", t.waitR.Writer-1)
 		case t.waitW != nil:
-			what = fmt.Sprintf("WLock(%p) writer=task%d readers=%d", t.waitW, t.waitW.Writer-1, t.waitW.Readers)
+			what = fmt.Sprintf("WLock writer=task%d readers=%d", t.waitW.Writer-1, t.waitW.Readers)
 		case t.waitWG != nil:
 			what = fmt.Sprintf("WaitGroup n=%d", t.waitWG.N)
 		case t.waitFn != nil:
@@ -684,6 +687,9 @@ func (w *World) As(ctx *Ctx, f func()) (pv interface{}, stack string) {
 	w.installEnv(ctx)
 	defer func() {
 		if r := recover(); r != nil {
+			if _, killed := r.(killSentinel); killed {
+				panic(r) // the task is being unwound (crash of its node, dead-lock, end of run): not a panic of f
+			}
 			pv = r
 			stack = string(debug.Stack())
 		}
